@@ -702,7 +702,7 @@ func runSchedOn(c SchedCase, o *Obs, sc *sched) error {
 func init() { register("TestC03_Sched", runSched) }
 
 func TestC03_Sched(t *testing.T) {
-	st := newStats(t, "C03", "TestC03_Sched", "2-3 clients, each a script of 1-6 operations on its own key range (INSERT/UPDATE/DELETE in autocommit mode with explicit write times, s3db_refresh, read-only open), all on one bucket prefix, plus a generated schedule of up to 120 choices: every client blocks in the fake store before each LIST and each GET/PUT/DELETE under root/ and runs only when the scheduler releases it, so exactly one client runs at a time and the interleaving of version-level requests is the generated one; for every completed open or refresh the rows of every client must equal one of that client's committed states j with lo<=j<=hi (lo = commits acknowledged before the open began, hi = commits started before it ended; the opener's own commits all count); at the end a fresh open must equal the union of all acknowledged commits; in a third of the cases 1-3 generated windows of delayed visibility are added (a client's GETs number n..n+len-1 of tree nodes stored by another client answer 'no such object' although the PUT was acknowledged): an operation hit by one may fail (the client stops) or skip the version, opens hit by one are exempt from the per-open oracle (a third of the windows hand out transport errors instead: an open hit by those fails or is held to the full oracle), a handle that lost sight of its own rows only inserts unused keys until its next undisturbed refresh, and all undisturbed opens and the final open keep the full oracle; non-trivial = a schedule in which an open's LIST and a later GET of a version are separated by another client's PUT/DELETE under root/")
+	st := newStats(t, "C03", "TestC03_Sched", "2-3 clients, each a script of 1-6 operations on its own key range (INSERT/UPDATE/DELETE in autocommit mode with explicit write times, s3db_refresh, read-only open), all on one bucket prefix, plus a generated schedule of up to 120 choices: every client blocks in the fake store before each LIST and each GET/PUT/DELETE under root/ and runs only when the scheduler releases it, so exactly one client runs at a time and the interleaving of version-level requests is the generated one; for every completed open or refresh the rows of every client must equal one of that client's committed states j with lo<=j<=hi (lo = commits acknowledged before the open began, hi = commits started before it ended; the opener's own commits all count); at the end a fresh open must equal the union of all acknowledged commits; in a third of the cases 1-3 generated windows of delayed visibility are added (a client's GETs number n..n+len-1 of tree nodes stored by another client answer 'no such object' although the PUT was acknowledged): an operation hit by one may fail (the client stops) or skip the version, opens hit by one are exempt from the per-open oracle (a third of the windows hand out transport errors instead: an open hit by those fails or is held to the full oracle), a handle that lost sight of its own rows only inserts unused keys until its next undisturbed refresh, and all undisturbed opens and the final open keep the full oracle; on single-node trees a window may instead make the client's own node PUTs fail: its commit fails, the statement must report an error and have no effect, the client goes on, and everything it commits before and after must be in every later open; non-trivial = a schedule in which an open's LIST and a later GET of a version are separated by another client's PUT/DELETE under root/")
 	st.Assume = append(st.Assume,
 		"node-object requests pass without yielding (content-addressed, never deleted in these scripts, commute)",
 		"concurrent vacuum is not part of the scripts")
